@@ -256,3 +256,13 @@ define void @"n\09m"(i32 "p\09k"="p\22v" %a) {
 }
 !named.x = !{!0}
 !0 = !{!"m\09d\22\5C\00\FF"}
+;;; ATOM func/attrgroup-defined-twice
+@g = global i32 0 #0
+declare void @d() #0
+define void @f() #0 {
+  call void @d() #0
+  ret void
+}
+attributes #0 = { nounwind }
+attributes #0 = { readnone "k"="v" }
+attributes #0 = { nounwind }
